@@ -26,7 +26,8 @@ NPROC = os.cpu_count() or 4
 
 BASE_FLAGS = ["-I" + os.path.join(REPO, "include"), "-I" + os.path.join(VERIF, "mc"),
               "-DTETL_ENABLE_CUSTOM_ASSERT_HANDLER=1", "-DTETL_ENABLE_CUSTOM_EXCEPTION_HANDLER=1",
-              "-fno-strict-aliasing", "-w"]
+              "-fno-strict-aliasing", "-w",
+              "-DMC_REPO_INCLUDE=\"%s\"" % os.path.join(REPO, "include"), "-DMC_VERIF_DIR=\"%s\"" % VERIF]
 SAN = ["-g1", "-fsanitize=address,undefined", "-fsanitize=float-cast-overflow", "-fsanitize-recover=all",
        "-fno-omit-frame-pointer"]
 FLAVOURS = {
